@@ -108,8 +108,18 @@ package hdkeychain
 //@   modifies nothing
 
 //@ func hdkeychain.(*ExtendedKey).ECPrivKey
-//@   ensures !old(k.isPrivate) ==> err == ErrNotPrivExtKey && result0 == nil
+//@   ensures !old(k.isPrivate) ==> err == ErrNotPrivExtKey && result0 == nil && $calls_PrivKeyFromBytes == 0
+//@   ensures old(k.isPrivate) ==> err == nil && result0 != nil && fresh(result0) && $calls_PrivKeyFromBytes == 1 && result0 == $ret0_PrivKeyFromBytes#1
 //@   modifies nothing
+//@   assert after PrivKeyFromBytes#1: sameobj($arg1, k.key) && $arg1.off == k.key.off && len($arg1) == len(k.key)
+
+//@ func hdkeychain.(*ExtendedKey).ECPubKey
+//@   ensures $calls_pubKeyBytes == 1 && $calls_ParsePubKey == 1 && result0 == $ret0_ParsePubKey#1
+//@   ensures err == nil ==> result0 != nil && fresh(result0)
+//@   ensures sameobj(k.key, old(k.key)) && len(k.key) == old(len(k.key)) && k.isPrivate == old(k.isPrivate)
+//@   modifies k.pubKey
+//@   assert after pubKeyBytes#1: $arg0 == k
+//@   assert after ParsePubKey#1: sameobj($arg0, $ret_pubKeyBytes#1) && len($arg0) == len($ret_pubKeyBytes#1) && $arg0.off == $ret_pubKeyBytes#1.off
 
 //@ func hdkeychain.GenerateSeed
 //@   ensures (length < 16 || length > 64) ==> err == ErrInvalidSeedLen
